@@ -152,6 +152,59 @@ def ast_walk_g(g: G):
             yield from ast_walk_g(it)
 
 
+def _object_valued(f, e: ast.AST, depth: int = 0) -> bool:
+    """Is `e` an element of a local list that is only ever filled with freshly constructed objects (`L.append(cls(..))`), reached
+    through aliases, `L[i]`, `for x in L` / `for i, x in enumerate(L)`?  Such a value is an instruction object, not token text."""
+    if depth > 6:
+        return False
+    fn = f.node
+
+    def binds(name: str):
+        out = []
+        for n in ast.walk(fn):
+            if isinstance(n, ast.Assign) and len(n.targets) == 1 and isinstance(n.targets[0], ast.Name) and n.targets[0].id == name:
+                out.append(("assign", n.value))
+            elif isinstance(n, (ast.For, ast.comprehension)):
+                t, it = n.target, n.iter
+                if isinstance(t, ast.Name) and t.id == name:
+                    out.append(("iter", it))
+                elif isinstance(t, ast.Tuple) and len(t.elts) == 2 and isinstance(t.elts[1], ast.Name) and t.elts[1].id == name \
+                        and isinstance(it, ast.Call) and isinstance(it.func, ast.Name) and it.func.id == "enumerate" and it.args:
+                    out.append(("iter", it.args[0]))
+                elif any(isinstance(x, ast.Name) and x.id == name for x in ast.walk(t)):
+                    out.append(("other", None))
+            elif isinstance(n, (ast.AugAssign, ast.AnnAssign, ast.NamedExpr)) and isinstance(getattr(n, "target", None), ast.Name) and n.target.id == name:
+                out.append(("other", None))
+        return out
+
+    def object_list(x: ast.AST, d: int) -> bool:
+        if d > 6 or not isinstance(x, ast.Name):
+            return False
+        bs = binds(x.id)
+        if not bs or any(k != "assign" for k, _ in bs):
+            return False
+        if all(isinstance(v, ast.Name) for _k, v in bs):
+            return all(object_list(v, d + 1) for _k, v in bs)
+        if not all(isinstance(v, ast.List) and not v.elts for _k, v in bs):
+            return False
+        adds = [c for c in ast.walk(fn) if isinstance(c, ast.Call) and isinstance(c.func, ast.Attribute) and isinstance(c.func.value, ast.Name)
+                and c.func.value.id == x.id and c.func.attr in ("append", "extend", "insert", "__setitem__")]
+        others = [n for n in ast.walk(fn) if isinstance(n, ast.Subscript) and isinstance(n.ctx, ast.Store) and isinstance(n.value, ast.Name) and n.value.id == x.id]
+        return bool(adds) and not others and all(c.func.attr == "append" and len(c.args) == 1 and isinstance(c.args[0], ast.Call)
+                                                  and isinstance(c.args[0].func, (ast.Name, ast.Subscript))
+                                                  and not (isinstance(c.args[0].func, ast.Name) and c.args[0].func.id in ("str", "repr", "input", "format"))
+                                                  for c in adds)
+
+    if isinstance(e, ast.Subscript) and not isinstance(e.slice, ast.Slice):
+        return object_list(e.value, depth)
+    if isinstance(e, ast.Name):
+        bs = binds(e.id)
+        if not bs:
+            return False
+        return all((k == "iter" and object_list(v, depth)) or (k == "assign" and _object_valued(f, v, depth + 1)) for k, v in bs)
+    return False
+
+
 def int_rule(ctx: Ctx) -> None:
     m = ctx.model
     r = ctx.rule("R15.int", "L(token) subset of L(int(., base)), incl. the 4300-digit limit, at every unguarded conversion")
@@ -177,7 +230,7 @@ def int_rule(ctx: Ctx) -> None:
                     continue
                 # conversions of non-token values (fixedint objects, ToyInstruction) are not text conversions
                 t0 = ast.unparse(a0)
-                if t0.startswith("fixedint.") or t0.startswith("UInt") or t0 in ("instr", "instructions[0]") or "UInt32(" in t0:
+                if t0.startswith("fixedint.") or t0.startswith("UInt") or "UInt32(" in t0 or _object_valued(f, a0):
                     continue
                 n_sites += 1
                 key = f"{cn}.{name}|int({t0}" + (f", base={_base_of(call)})" if _base_of(call) != 10 else ")")
